@@ -1,10 +1,10 @@
 #!/bin/bash
-# usage: confirm_mutant.sh <ID> [worktree]   -- confirms a seeded change in its scratch worktree and
+# usage: confirm_mutant.sh <ID> [worktree] [name]   -- confirms a seeded change in its scratch worktree and
 # stores patch + demonstration under /verif/seeded/<ID>/. Prints a JSON summary line.
 set -uo pipefail
-ID=$1; WT=${2:-/tmp/wt/$ID}
+ID=$1; WT=${2:-/tmp/wt/$ID}; NAME=${3:-$ID}
 export GOFLAGS=-mod=mod GOPROXY=off GOSUMDB=off GOTOOLCHAIN=local
-OUT=/verif/seeded/$ID; mkdir -p "$OUT"
+OUT=/verif/seeded/$NAME; mkdir -p "$OUT"
 cd "$WT" || exit 2
 git diff > "$OUT/patch.diff"
 [ -s "$OUT/patch.diff" ] || { echo "no tracked change in $WT"; exit 2; }
@@ -14,9 +14,9 @@ TESTS=$(echo "$DEMOS" | grep '_test.go$' || true)
 [ -n "$TESTS" ] || { echo "no demo test file"; exit 2; }
 TAGS=""; grep -lq 'build verif' $TESTS 2>/dev/null && TAGS="-tags verif"
 # 1. suite with the change (demo files moved aside)
-mkdir -p /tmp/wt/.aside-$ID; for f in $TESTS; do mkdir -p /tmp/wt/.aside-$ID/$(dirname $f); mv $f /tmp/wt/.aside-$ID/$f; done
+mkdir -p /tmp/.aside-$NAME; for f in $TESTS; do mkdir -p /tmp/.aside-$NAME/$(dirname $f); mv $f /tmp/.aside-$NAME/$f; done
 go test -vet=off -count=1 ./... > "$OUT/suite_with_change.log" 2>&1; SUITE=$?
-for f in $TESTS; do mv /tmp/wt/.aside-$ID/$f $f; done; rm -rf /tmp/wt/.aside-$ID
+for f in $TESTS; do mv /tmp/.aside-$NAME/$f $f; done; rm -rf /tmp/.aside-$NAME
 # 2. demo with the change -> must fail
 PKGS=$(for f in $TESTS; do echo "./$(dirname $f)"; done | sort -u)
 go test -vet=off -count=1 $TAGS -run 'ZZ|zz|Demo' $PKGS > "$OUT/demo_with_change.log" 2>&1; DEMO_WITH=$?
@@ -24,4 +24,4 @@ go test -vet=off -count=1 $TAGS -run 'ZZ|zz|Demo' $PKGS > "$OUT/demo_with_change
 git apply -R "$OUT/patch.diff"   # (not git stash: the stash is shared between worktrees)
 go test -vet=off -count=1 $TAGS -run 'ZZ|zz|Demo' $PKGS > "$OUT/demo_without_change.log" 2>&1; DEMO_WITHOUT=$?
 git apply "$OUT/patch.diff"
-echo "{\"id\":\"$ID\",\"suite_with_change_exit\":$SUITE,\"demo_with_change_exit\":$DEMO_WITH,\"demo_without_change_exit\":$DEMO_WITHOUT,\"tags\":\"$TAGS\"}" | tee "$OUT/confirm.json"
+echo "{\"id\":\"$NAME\",\"suite_with_change_exit\":$SUITE,\"demo_with_change_exit\":$DEMO_WITH,\"demo_without_change_exit\":$DEMO_WITHOUT,\"tags\":\"$TAGS\"}" | tee "$OUT/confirm.json"
